@@ -653,20 +653,32 @@ PROPS["C18"] = dict(
          "Close, in-flight exchanges, a new exchange on the upstream and on each leg of a udp upstream, sockets of "
          "the process (Opt.Control + /proc/self/fd) and connections still open at the server; compared with the "
          "composite model (Net/ShutdownOwn.v); "
+         "startcfg: configurations as item lists (metrics, 10 upstream kinds, domain sets, rules, cache, 8 listener "
+         "kinds) with one fault from the catalogue of configuration errors (duplicate / missing tag, missing addr, "
+         "unknown scheme / protocol, metrics registration failure, port in use, bad address, no / half / unreadable / "
+         "garbage / mismatching certificate, bad ca file, verify_client_cert without ca, missing / bad domain, marker "
+         "file, bad redis url) at every kind, first in the list and behind components that already hold sockets or "
+         "goroutines; one child process per case, run() three times: error reported, sockets / other fds / goroutines "
+         "left over per run (garbage collection off so that unreachable sockets stay visible); a few through the real "
+         "binary (exit status); compared with the init programs of Router/StartupInit.v; "
          "startup: failing listener at every position of a list holding all 8 listener kinds (port in use, "
          "unknown protocol, bad certificate path, bad address), failing upstream / domain set / rule / cache / "
          "metrics listener, in-process and through the real binary; distinct = distinct case line",
     assumptions=["loopback sockets; net.Pipe connections for the scripted transports; quiescence = no observable "
                  "activity for 14 ms; Close must return within 2 s, router close within 5 s",
                  "injected dialers honour context cancellation (dm=honour) or complete late (dm=ignore)"],
-    trusted=["C18: which parts an upstream owns and which its Close names (uo_owned, uo_close_prog) is read off "
+    trusted=["C18: the init programs (si_prog_of: order of checks, acquisitions and the release on each error path) "
+             "and the fault -> failing statement table (si_fault_stmt) are read off app/router by hand and tied to the "
+             "code by kind startcfg; goroutines of fasthttp's worker-pool cleaner (10 s sleep) are not counted",
+             "C18: which parts an upstream owns and which its Close names (uo_owned, uo_close_prog) is read off "
              "upstream.go by hand and tied to the code by kind upown; the library parts (connTracker, quic.Transport, "
              "UDP socket) are counters, not models of net/http / quic-go",
              "C18: small-step models at atomic-action granularity; Go mutex/channel atomicity, net/http, quic-go, "
              "gnet, fasthttp modelled not verified; 'returns promptly' is timed, not proved"],
     level_note="partial: the theorems cover the close-race logic of the reuse, pipeline and quic transports at "
                "atomic-action granularity, the upstream as a composite of the transports / sockets it owns (Close "
-               "closes every owned part exactly once, from every reachable state) and the start-up/close sequence of "
-               "the router; promptness, the kernel's socket release and the HTTP/QUIC libraries are sampled by the "
+               "closes every owned part exactly once, from every reachable state), the start-up/close sequence of "
+               "the router and the init programs of its components (every acquired resource is registered or "
+               "released on the error path, for every failing statement); promptness, the kernel's socket release and the HTTP/QUIC libraries are sampled by the "
                "harness",
 )
